@@ -94,6 +94,12 @@ def run(ctx):
         gen.add_data_vars(rng, ds, kinds, fixed_extra=[(dim, sp['n'])] + ([('time', 2)] if rng.random() < 0.5 else []),
                           names_prefix='dv')
         names = [c['name'] for c in sp['coords']]
+        # bounds variables held as xarray coordinates (set_coords, or a file listing them in a `coordinates` attribute)
+        bvars = [ds[nm].attrs['bounds'] for nm in names if ds[nm].attrs.get('bounds') in ds.data_vars]
+        as_coord = bool(bvars) and rng.random() < 0.5
+        if as_coord:
+            ds = ds.set_coords(bvars)
+        ctx.count(f'bounds_as_xarray_coordinate:{as_coord}')
         via_ems = rng.random() < 0.5
         if via_ems:
             ems_names = [c.name for c in ds.ems.depth_coordinates]
